@@ -991,9 +991,11 @@ def _schedule(prop, tier, seed):
         # is_match / earliest on prefilter-accelerated searchers, both anchorings (an anchored search must not
         # consult the prefilter at all: seeded change C14c hides there), patterns of different lengths
         pf_cases = [Case("c14lf_pf_r1b", ["abcq", "cdq", "efq", "ghq"], mk="lf", pf=True),
-                    Case("c14std_pf_s1", ["abc", "ab"], mk="std", pf=True)]
+                    Case("c14std_pf_s1", ["abc", "ab"], mk="std", pf=True),
+                    # a prefilter that confirms matches by itself (memmem): must not be trusted under anchoring (seeded C14d)
+                    Case("c14std_pf_mm", ["foo"], mk="std", pf=True)]
         if not quick:
-            pf_cases += [Case("c14ll_pf_r2", ["abcz", "bz", "cq"], mk="ll", pf=True), Case("c14std_pf_mm", ["foo"], mk="std", pf=True),
+            pf_cases += [Case("c14ll_pf_r2", ["abcz", "bz", "cq"], mk="ll", pf=True),
                          Case("c14lf_pf_r2ci", ["abc", "ab"], mk="lf", pf=True, ci=True)]
         cases += pf_cases
 
@@ -1004,6 +1006,10 @@ def _schedule(prop, tier, seed):
                     h.stubs = list(STUB_PF)
                     h.meta["prefilter"] = facts[h.case.name]["prefilter"][:120]
             for c in cases:
+                if c.name.endswith("pf_mm"):
+                    h = h_ac_ismatch(prop, c, facts, "dfa", n=4)
+                    h.stubs = list(STUB_PF)
+                    hs.append(h)
                 if "empty" in c.name or "basic" in c.name:
                     if quick and c.mk == "ll":
                         continue
@@ -1102,6 +1108,8 @@ def _schedule(prop, tier, seed):
                     continue
                 cases.append(Case("c13%s_%s" % (mkk, sk), ["ab", "b"], mk=mkk, sk=sk))
         cases.append(Case("c13std_un_empty", ["ab", ""], mk="std", sk="un"))
+        # the empty pattern FIRST (no non-empty pattern precedes it: seeded C13c made rejection order dependent)
+        cases.append(Case("c13std_un_empty1", ["", "ab"], mk="std", sk="un"))
         cases.append(Case("c13lf_both_empty", ["", "ab"], mk="lf", sk="both"))
         if not quick:
             cases.append(Case("c13std_both_other", ["abc", "c", "ca"], mk="std", sk="both"))
